@@ -266,14 +266,15 @@ class EObject(ENotifer, metaclass=Metasubinstance):
                 if self is owner:
                     fvalue.clear()
                     continue
-                elif self in fvalue:
-                    fvalue.remove(self)
-                    continue
-                value = next((val for val in fvalue
-                              if getattr(val, '_wrapped', None) is self),
+                # looked for by identity: comparing would follow every proxy
+                # nobody has followed yet, half-way through the deletion,
+                # against positions that are changing
+                index = next((i for i, val in enumerate(fvalue)
+                              if val is self
+                              or getattr(val, '_wrapped', None) is self),
                              None)
-                if value is not None:
-                    fvalue.remove(value)
+                if index is not None:
+                    fvalue.pop(index)
             else:
                 if self is fvalue or self is owner:
                     owner.eSet(feature, None)
